@@ -13,6 +13,8 @@ import (
 	"os"
 	"runtime/debug"
 	"sort"
+	"strconv"
+	"strings"
 	"sync"
 	"time"
 
@@ -810,7 +812,14 @@ func cafsReplay(args []string) error {
 	reads := fl.String("reads", "full", "full|light|none")
 	seed := fl.Uint64("seed", 1, "seed")
 	keysOut := fl.String("keys-out", "", "dump (content, key) pairs for the independent hash oracle")
+	leafCycle := fl.String("leaf-cycle", "", "comma separated leaf sizes used in turn by the behaviours of ONE process (state shared between store instances)")
 	_ = fl.Parse(args)
+	var cycle []int
+	for _, f := range strings.Split(*leafCycle, ",") {
+		if n, err := strconv.Atoi(strings.TrimSpace(f)); err == nil && n > 0 {
+			cycle = append(cycle, n)
+		}
+	}
 	cfg := &cafsCfg{ref: refine{L: *cells, Lambda: *lambda, Boundary: *boundary, Seed: *seed}, style: *style, crc: *crc,
 		prefetch: *prefetch, cache1: *cache1, sched: *sched, reads: *reads, rng: rand.New(rand.NewSource(int64(*seed)))}
 	var kf *os.File
@@ -832,8 +841,19 @@ func cafsReplay(args []string) error {
 		}
 	}
 	res := vutil.NewResult("cafs")
-	run := func(i int, line []byte, r *vutil.BehResult) { runCafsBehaviour(cfg, i, line, r) }
-	if err := vutil.Isolated("cafs", *in, res, run, 25*time.Second); err != nil {
+	run := func(i int, line []byte, r *vutil.BehResult) {
+		if len(cycle) == 0 {
+			runCafsBehaviour(cfg, i, line, r)
+			return
+		}
+		// every leaf size of the cycle in this one process, before and after each other
+		for k := 0; k < len(cycle) && len(r.Mismatches) == 0; k++ {
+			c := *cfg
+			c.ref.Lambda = cycle[(i+k)%len(cycle)]
+			runCafsBehaviour(&c, i, line, r)
+		}
+	}
+	if err := vutil.Isolated("cafs", *in, res, run, 120*time.Second); err != nil {
 		return err
 	}
 	if os.Getenv("VH_CHILD") != "" {
